@@ -585,7 +585,7 @@ int engine_main(int argc, char **argv, const Harness &h) {
       // consumed prefix matters and that 0 is the simplest choice)
       std::string desc = g_case.desc;
       write_case(found, ch, r.symptom, r.detail, desc);
-      uint64_t budget = 20000;
+      uint64_t budget = h.shrink_budget;
       std::vector<std::pair<uint32_t, uint32_t>> spans = g_spans;
       auto still_fails = [&](const std::vector<uint32_t> &cand, RunRes &out) {
         if (budget == 0) return false;
